@@ -202,7 +202,7 @@ def main(argv=None):
     contracts = [c for c in reg.all if prop in c.props and not c.assumed and (a.tier == 'thorough' or c.tier == 'quick')]
     if a.only:
         contracts = [c for c in contracts if a.only in c.name]
-    opts = {'timeout_ms': 30000 if a.tier == 'quick' else 120000}
+    opts = {'timeout_ms': int(os.environ.get('PYVC_TIMEOUT_MS') or (30000 if a.tier == 'quick' else 120000))}
     tl = []
     for c in contracts:
         if c.shards > 1:
@@ -272,6 +272,40 @@ def main(argv=None):
         if not upgraded:
             still_unknown.append((cname, o))
     unknown = still_unknown
+    # solver budget exhausted (wall-clock timeouts depend on machine load): re-run the contract alone, after the pool has
+    # drained, with four times the budget; an obligation counts as discharged only if the solver says so on the re-run
+    retry = sorted({cname for cname, o in unknown if any(w in (o.get('detail') or '') for w in ('canceled', 'timeout'))})
+    if retry and not os.environ.get('PYVC_NO_RETRY'):
+        still = []
+        rer = {}
+        for cname in retry:
+            c0 = next((c for c in contracts if c.name == cname), None)
+            sh = c0.shards if c0 is not None else 1
+            got = []
+            for k in range(sh):
+                o2 = dict(opts, timeout_ms=opts['timeout_ms'] * 4, budget_s=1500)
+                if sh > 1:
+                    o2['shard'] = (k, sh)
+                rr = with_timeout(tasks.run_contract_task, ((cname, o2),), 1800)
+                if rr:
+                    got.extend(rr['obligations'])
+            rer[cname] = got
+        for cname, o in unknown:
+            again = [x for x in rer.get(cname, []) if x['name'] == o['name']]      # on every path that generates it
+            if cname in rer and again and all(x['status'] == 'discharged' for x in again):
+                n_dis += 1
+                solver_secs += sum(x['secs'] for x in again)
+                for r in cres:
+                    if r['name'] == cname:
+                        for oo in r['obligations']:
+                            if oo is o:
+                                oo['status'] = 'discharged'
+                                oo['detail'] = 'discharged on the re-run with 4x solver budget (first attempt: ' + (o.get('detail') or '').strip() + ')'
+            elif cname in rer and any(x['status'] == 'failed' for x in again):
+                failed.append((cname, next(x for x in again if x['status'] == 'failed')))
+            else:
+                still.append((cname, o))
+        unknown = still
     # floor: a contract that silently lost its obligations is a checker error, not a pass
     floor_path = os.path.join(ROOT, 'obligation_floor.json')
     floors = json.load(open(floor_path)) if os.path.exists(floor_path) else {}
@@ -358,6 +392,7 @@ def main(argv=None):
         known_finding_obligations=n_known,
         partially_explored=sorted({f"{r['name']}: {n}" for r in cres for n in r.get('notes', []) if n.startswith('PARTIAL')}),
         undecided=len(unknown),
+        discharged_on_retry=sorted({o['name'] for r in cres for o in r['obligations'] if 're-run with 4x' in (o.get('detail') or '')}),
         inlined_helpers=inlined,
         bounded=dict(label='bounded stand-in, NOT counted as proved', evaluations=b_eval, distinct_nontrivial=b_dist,
                      harnesses=[dict(name=r['name'], evaluations=r.get('evaluations', 0), rule=r.get('rule', ''),
